@@ -86,6 +86,7 @@ pub fn run_worker<P: Property>(a: WorkerArgs) -> ! {
             }
             let tree = new_tree::<P>(&strategy, a.seed, index);
             let (min_case, min_f, _) = shrink(&p, tree, &f.key);
+            let (min_case, min_f) = reduce_structurally(&p, min_case, &f.key, min_f);
             res.violations.push(ReplayFile {
                 property: P::ID.into(),
                 key: min_f.key,
